@@ -56,6 +56,11 @@ def run(index, rep):
     rep.guard(unitlit, index, rep)
     rep.guard(state8, index, rep)
     rep.guard(ramp_area, index, rep)
+    # feed and biofuel demand are supply-side series of this property too: use every month until the configured shut-off, nothing afterwards,
+    # each from its own delay (the rule is C03's; its obligations are filed here under C08.SHUT as well)
+    from .c03 import shut as _shut
+    from .core import RuleAlias
+    rep.guard(_shut, index, RuleAlias(rep, lambda r: "C08.SHUT" if r == "C03.SHUT" else r))
 
 
 def ramp_area(index, rep):
